@@ -165,4 +165,83 @@ theorem C01_conformer_ids_distinct (r : Residue) (a : Atom) (name : String) (alt
   unfold Residue.addAtomRaw Residue.addAtomN
   exact nodup_upsertC Conformer.cid Conformer.empty (Conformer.push a) (fun _ => rfl) (fun _ => rfl) _ _ h
 
+/-! ### serial numbers that wrapped keep counting upward -/
+
+/-- the reader's bookkeeping over a run of records: (last column value, offset) and the internal numbers -/
+def wrapRun (top : Nat) : (Nat × Nat) → List Nat → List Nat
+  | _, [] => []
+  | (last, add), s :: rest =>
+    let add' := wrapAddN top last add s
+    (s + add') :: wrapRun top (s, add') rest
+
+/-- **wrapped serial numbers count on**: if consecutive records carry `n mod (top+1)` for consecutive `n`
+(what a writer limited to the column width produces), the reader's internal numbers are `n` again — for the
+atom serial column (`top = 99999`) and any length of run -/
+theorem C01_serial_wrap (top : Nat) (n k : Nat) :
+    wrapRun top (n % (top + 1), n / (top + 1) * (top + 1))
+      ((List.range' (n + 1) k).map (· % (top + 1))) = List.range' (n + 1) k := by
+  induction k generalizing n with
+  | zero => rfl
+  | succ k ih =>
+    rw [List.range'_succ, List.map_cons]
+    unfold wrapRun
+    simp only
+    have hpos : 0 < top + 1 := Nat.succ_pos top
+    obtain ⟨q, r, hr, hn⟩ : ∃ q r, r < top + 1 ∧ n = (top + 1) * q + r :=
+      ⟨n / (top + 1), n % (top + 1), Nat.mod_lt _ hpos, (Nat.div_add_mod n (top + 1)).symm⟩
+    have em : n % (top + 1) = r := by rw [hn, Nat.mul_add_mod, Nat.mod_eq_of_lt hr]
+    have ed : n / (top + 1) = q := by rw [hn, Nat.mul_add_div hpos, Nat.div_eq_of_lt hr, Nat.add_zero]
+    have facts : (n + 1) % (top + 1) + wrapAddN top r (q * (top + 1)) ((n + 1) % (top + 1)) = n + 1 ∧
+        wrapAddN top r (q * (top + 1)) ((n + 1) % (top + 1)) = (n + 1) / (top + 1) * (top + 1) := by
+      by_cases hc : r + 1 < top + 1
+      · have h1 : n + 1 = (top + 1) * q + (r + 1) := by omega
+        have e1 : (n + 1) % (top + 1) = r + 1 := by rw [h1, Nat.mul_add_mod, Nat.mod_eq_of_lt hc]
+        have e2 : (n + 1) / (top + 1) = q := by rw [h1, Nat.mul_add_div hpos, Nat.div_eq_of_lt hc, Nat.add_zero]
+        unfold wrapAddN
+        rw [e1, e2]
+        have : (r + 1 == 0) = false := by simp
+        simp only [this, Bool.false_and, Bool.false_eq_true, if_false]
+        exact ⟨by rw [Nat.mul_comm q]; omega, trivial⟩
+      · have hrt : r = top := by omega
+        have h1 : n + 1 = (top + 1) * (q + 1) := by
+          rw [Nat.mul_add, Nat.mul_one, hn, hrt]; generalize (top + 1) * q = a; omega
+        have e1 : (n + 1) % (top + 1) = 0 := by rw [h1, Nat.mul_mod_right]
+        have e2 : (n + 1) / (top + 1) = q + 1 := by rw [h1, Nat.mul_div_cancel_left _ hpos]
+        unfold wrapAddN
+        rw [e1, e2, hrt]
+        simp only [beq_self_eq_true, Bool.and_self, if_true]
+        refine ⟨?_, by rw [Nat.add_mul, Nat.one_mul]⟩
+        rw [h1, Nat.mul_comm (top + 1) (q + 1), Nat.add_mul, Nat.one_mul, Nat.zero_add]
+    rw [em, ed, facts.2]
+    congr 1
+    · rw [← facts.2]; exact facts.1
+    · exact ih (n + 1)
+
+/-- the atom serial column: records …, 99998, 99999, 0, 1, … are read as …, 99998, 99999, 100000, 100001, … -/
+example : wrapRun 99999 (99998, 0) [99999, 0, 1, 2] = [99999, 100000, 100001, 100002] := by decide
+
+/-! ### shared atoms: occupancies add up -/
+
+/-- **the shared atom's occupancy is split, not multiplied**: an atom without alternate location that is copied
+into the `k` labelled conformers of its residue carries `occ / k` in each; whenever that division is exact (the
+model's exactness flag) the copies add up to the original occupancy -/
+theorem C01_shared_occupancy_sum (occ : Int) (k : Nat) (hk : 0 < k) (hex : occ % (k : Int) = 0) :
+    ((List.replicate k (occ / (k : Int))).sum) = occ := by
+  have : (List.replicate k (occ / (k : Int))).sum = (k : Int) * (occ / (k : Int)) := by
+    induction k with
+    | zero => simp
+    | succ j ih =>
+      rw [List.replicate_succ, List.sum_cons]
+      cases j with
+      | zero => simp
+      | succ i =>
+        have hrec : ∀ (m : Nat) (x : Int), (List.replicate m x).sum = (m : Int) * x := by
+          intro m x
+          induction m with
+          | zero => simp
+          | succ m ihm => rw [List.replicate_succ, List.sum_cons, ihm]; push_cast; rw [Int.add_mul, Int.one_mul, Int.add_comm]
+        rw [hrec]; push_cast; rw [Int.add_mul, Int.add_mul, Int.one_mul, Int.add_mul, Int.one_mul]; omega
+  rw [this]
+  exact Int.mul_ediv_cancel' (Int.dvd_of_emod_eq_zero hex)
+
 end PdbModel
